@@ -334,12 +334,17 @@ func (Spec) MakeData(name enc.Name, config *ndn.DataConfig, content enc.Wire, si
 			return nil, ndn.ErrNotSupported{Item: "Too long signature value is not supported"}
 		}
 		wire[encoder.Data_encoder.SignatureValue_wireIdx] = sigVal
-		// Fix SignatureValue length
+		// Fix SignatureValue length: the buffer before the signature slot ends with the
+		// length octets written for estSigLen; re-encode them for the actual length,
+		// which may need fewer octets (e.g. estimate >= 253, signature < 253).
 		buf := wire[encoder.Data_encoder.SignatureValue_wireIdx-1]
-		buf[len(buf)-1] = byte(len(sigVal))
-		// TODO: This needs to be fixed for estSigLen >= 253 (urgent)
+		oldLenSize := enc.TLNum(estSigLen).EncodingLength()
+		newLenSize := enc.TLNum(len(sigVal)).EncodingLength()
+		buf = buf[:len(buf)-oldLenSize+newLenSize]
+		enc.TLNum(len(sigVal)).EncodeInto(buf[len(buf)-newLenSize:])
+		wire[encoder.Data_encoder.SignatureValue_wireIdx-1] = buf
 		// Fix packet length
-		shrink := estSigLen - len(sigVal)
+		shrink := estSigLen - len(sigVal) + oldLenSize - newLenSize
 		wire[0] = enc.ShrinkLength(wire[0], shrink)
 		// }
 	}
